@@ -54,6 +54,16 @@ def expected_values(op, fn, a, b, A, B, arg):
         ne, npg = a["shape"][:2]
         tn = arg
         v = B
+        if tn == 0:
+            # no tensor axes declared (FeShapes.tla): length Ne -> per element (also when nPg == Ne), length nPg -> per Gauss point,
+            # (Ne, nPg) -> the field itself, anything else -> a constant tensor
+            if v.ndim == 1 and v.shape[0] == ne:
+                return np.repeat(v[:, None], npg, axis=1)
+            if v.ndim == 1 and v.shape[0] == npg:
+                return np.repeat(v[None, :], ne, axis=0)
+            if v.ndim >= 2 and v.shape[:2] == (ne, npg):
+                return v
+            return np.broadcast_to(v[None, None], (ne, npg) + v.shape).copy()
         ld = v.shape[: v.ndim - tn]
         out = np.zeros((ne, npg) + v.shape[v.ndim - tn:])
         for e in range(ne):
